@@ -19,6 +19,10 @@
 //	c07.font <programHex|~> <encNameHex> <dataHex> <nfc table pre>post;..|~>
 //	                                    -> scalars of (*Font).DecodeString(data)
 //	c07.nofont <dataHex>                -> scalars of the fragment text of `<data> Tj` with no font
+//	c07.render <flags/wrap> <form> <w> <runs> -> hex of the program the independent writer renders
+//	c07.entries <form> <runs>           -> the code:text entries the program specifies
+//	c07.ext <objects> <pageResHex|~> <contentHex> <nfc table>
+//	                                    -> ok <texts of all fragments in show order, before de-duplication> | err
 //
 // An implementation result that is not valid UTF-8 is written as `invalid-utf8 <hex>`.
 package c07
@@ -42,6 +46,7 @@ func Run(c *hx.Ctx) {
 		"mutated (malformed) programs, scalar strings through UTF-16BE/LE (all scalars swept), byte strings through (*Font).DecodeString and text.Extractor, one-page PDFs (TrueType font with /Encoding and /ToUnicode) through tabula.Open(f).Fragments(), " +
 		"one-page PDFs with 2-4 font dictionaries (TrueType/Type1/Type0; sharing one BaseFont or not; each with its own ToUnicode and/or /Encoding, the same codes mapped differently; " +
 		"bound in the page and in Form XObjects it draws, under unique names or names every scope starts again) where every shown string must decode by the dictionary its Tf selects. " +
+		"documents for text.Extractor given as object tables (1-4 font dictionaries, page + 0-3 Form XObjects each with its own resources, shows by Tj/TJ/'/\" under q/Q and Do): half well formed (every Tf names a font of its own scope: the specified texts are demanded), half with what the property does not speak about (odd /Subtype, /Encoding dictionaries or wrong types, ToUnicode that is no stream, bad /Widths, unbound or missing Tf, stray Q, forms without /Resources or drawing themselves, unparsable content). " +
 		"non-trivial = the decoded result is non-empty"
 	runEncodings(c)
 	runUTF16(c)
@@ -51,6 +56,7 @@ func Run(c *hx.Ctx) {
 	runFonts(c)
 	runPDF(c)
 	runMultiFont(c)
+	runExtract(c)
 	c.Rep.Exhaustive = true
 }
 
@@ -145,6 +151,8 @@ func Replay(c *hx.Ctx, k map[string]interface{}) {
 		replayPDF(c, k)
 	case "multifont":
 		replayMultiFont(c, k)
+	case "ext":
+		replayExt(c, k)
 	default:
 		c.Note("C07 replay: unknown case kind %q", kind)
 	}
